@@ -251,24 +251,58 @@ def run(R):
                     "the keyed path can be taken with key_fn None", fcfg.fmt_path(p) if p else None)
         one = [n for n in fcfg.nodes if n.kind == "stmt" and isinstance(n.ast, ast.Assign) and q.src(n.ast.value) == "args[0]"]
         if one:
-            p = kit.path_avoiding_guard(fcfg, one, guard_of("eq", tuple(sorted(["len(args)", "1"])), True), N)
+            len_names = set(["len(args)"]) | set(t.id for n in q.scope_nodes(f.node) if isinstance(n, ast.Assign) and q.src(n.value) == "len(args)"
+                                                 for t in n.targets if isinstance(t, ast.Name))
+
+            def one_given(nd):
+                if nd.kind != "test":
+                    return None
+                k, s, pos = q.atom_test(nd.ast)
+                if k == "eq" and "1" in s and any(x in len_names for x in s):
+                    return "T" if pos else "F"
+                return None
+            p = kit.path_avoiding_guard(fcfg, one, one_given, N)
             R.check(p is None, "C14.TIE", f.qualname + ":one-arg", R.site(f), "args[0] is the iterable only when exactly one positional argument was given",
                     "args[0] can be taken as the iterable although several elements were given", fcfg.fmt_path(p) if p else None)
     # ---- afilter / afilterfalse / asift use the same materialised sequence for calls and selection
     for h, negate in (("afilter", False), ("afilterfalse", True)):
         f = repo.fn("tools." + h)
+        # the selection, in normal form (elements, flags, negated): itertools.compress(elements, flags) - flags possibly a list of
+        # negations of another list - or [e for e, f in zip(elements, flags) if f] / `if not f`
         cc = [c for c in q.calls(f.node) if q.call_name(c) == "itertools.compress"]
-        R.check(len(cc) == 1 and q.src(cc[0].args[0]) == "sequence", "C14.FILTER", f.qualname, R.site(f),
+        sel_elems = sel_flags = None
+        sel_neg = False
+        if len(cc) == 1 and len(cc[0].args) == 2:
+            sel_elems, fl = q.src(cc[0].args[0]), cc[0].args[1]
+            if isinstance(fl, ast.Name):
+                vals = [v for k, v in common.assigned_values(f.node, fl.id)]
+                src_e = vals[0] if len(vals) == 1 and not (isinstance(vals[0], ast.List) and not vals[0].elts) else fl
+                comp = kit.as_comprehension(f.node, src_e)
+                if comp is not None and not comp[3] and isinstance(comp[0], ast.UnaryOp) and isinstance(comp[0].op, ast.Not) and q.src(comp[0].operand) == comp[1]:
+                    sel_flags, sel_neg = q.src(comp[2]), True
+                else:
+                    sel_flags = fl.id
+        else:
+            for rn in [n for n in q.scope_nodes(f.node) if isinstance(n, ast.Return) and n.value is not None]:
+                e_ = rn.value.args[0] if isinstance(rn.value, ast.Call) and q.call_name(rn.value) == "list" and len(rn.value.args) == 1 else rn.value
+                if isinstance(e_, (ast.ListComp, ast.GeneratorExp)) and len(e_.generators) == 1:
+                    g_ = e_.generators[0]
+                    if isinstance(g_.iter, ast.Call) and q.call_name(g_.iter) == "zip" and len(g_.iter.args) == 2 and isinstance(g_.target, ast.Tuple) \
+                            and len(g_.target.elts) == 2 and len(g_.ifs) == 1 and q.src(e_.elt) == q.src(g_.target.elts[0]):
+                        k_, s_, pos_ = q.atom_test(g_.ifs[0])
+                        if k_ == "truth" and s_ == q.src(g_.target.elts[1]):
+                            sel_elems, sel_flags, sel_neg = q.src(g_.iter.args[0]), q.src(g_.iter.args[1]), not pos_
+                            cc = [g_.iter]
+        R.check(sel_elems == "sequence", "C14.FILTER", f.qualname, R.site(f),
                 "%s selects from the same (materialised) sequence the predicate was applied to" % h, "%s does not select from the sequence the predicate ran on" % h)
+        # the flags are the results of the one yield of per-element predicate calls
+        fv = [v for k, v in common.assigned_values(f.node, sel_flags)] if sel_flags else []
+        from_yield = len(fv) == 1 and isinstance(fv[0], ast.Yield)
         if negate:
-            sel = cc[0].args[1] if cc else None
-            vals = [v for k, v in common.assigned_values(f.node, sel.id)] if isinstance(sel, ast.Name) else []
-            comp = kit.as_comprehension(f.node, vals[0] if len(vals) == 1 and not (isinstance(vals[0], ast.List) and not vals[0].elts) else sel) if sel is not None else None
-            neg = [1] if comp is not None and not comp[3] and isinstance(comp[0], ast.UnaryOp) and isinstance(comp[0].op, ast.Not) and q.src(comp[0].operand) == comp[1] else []
-            R.check(len(neg) == 1 and q.src(cc[0].args[1]) == "should_include", "C14.FILTER", f.qualname + ":negate", R.site(f),
+            R.check(from_yield and sel_neg, "C14.FILTER", f.qualname + ":negate", R.site(f),
                     "afilterfalse keeps the elements whose predicate is false", "afilterfalse does not negate the predicate results")
         else:
-            R.check(len(cc) == 1 and q.src(cc[0].args[1]) == "should_include", "C14.FILTER", f.qualname + ":select", R.site(f),
+            R.check(from_yield and not sel_neg, "C14.FILTER", f.qualname + ":select", R.site(f),
                     "afilter keeps the elements whose predicate is true", "afilter does not select by the predicate results")
         # the shortcut that ignores the predicate (filter(None, ...) / filterfalse(None, ...)) is taken only when there is none
         fcfg = cfg_of(f)
@@ -330,7 +364,7 @@ def run(R):
                     vals = [a.value for a in stmts if isinstance(a, ast.Assign) and any(q.src(t) == n.value.id for t in a.targets)]
                     return len(vals) == 1 and isinstance(vals[0], ast.Yield)
         return False
-    oky = len(ys) == 1 and q.src(ys[0].value) == "fn.asynq(*args, **kwargs)" and returns_yield(tr.body)
+    oky = len(ys) == 1 and q.src(ys[0].value) == "fn.asynq(*args, **kwargs)" and returns_yield(list(tr.body) + list(tr.orelse))
     R.check(oky, "C14.RETRY", w.qualname + ":body", R.site(w, tr), "each attempt yields fn.asynq(*args, **kwargs) and returns its result",
             "an attempt does not yield fn.asynq(*args, **kwargs) and return its result")
     asserts = [n for n in top.node.body if isinstance(n, ast.Assert)]
